@@ -2574,7 +2574,9 @@ impl Monitor {
                         format!("kernel epoll table holds {n} entr{} for fd {fd}, which has {live} live adapter(s) (entries {actual:x?})", if n == 1 { "y" } else { "ies" }),
                     )
                     .with_sig(if n > live { "C16.table/stale-adapter-fd" } else { "C16.table/adapter-fd-missing" }),
-                    vec!["C16", "C15"],
+                    // C08: an adapter that goes away wherever calloop drops its owner (also inside remove() issued from a
+                    // callback) must have the effect it has anywhere else - a silently failed borrow in its Drop has not
+                    vec!["C16", "C15", "C08"],
                 ));
             }
             if let Some(a) = self.asyncs.iter().find(|a| a.fd == fd && a.live) {
